@@ -461,11 +461,39 @@ sys.exit(0 if ok else 1)
 '''
 
 
-def task_skeletons(seed, n, depth, width, trunc=False):
+def long_flat_skeletons():
+    """hand-written LONG skeletons (20-60 characters in one stoichiometric part, elements repeated many times, with and without brackets,
+    up to 16 terms): sizes the random generator (<= 3 terms per group) never produces"""
+    def flat(spec):
+        k = [0]
+
+        def ph():
+            k[0] += 1
+            return ("cnt", k[0])
+        return [("el", sym, ph() if counted else None) for sym, counted in spec]
+
+    def f(part, **kw):
+        d = dict(prefix="", parts=[(None, part)], sep="..", charge=None, suffix="", prime="", caged=False)
+        d.update(kw)
+        return d
+
+    hexanol = [("C", 0), ("H", 1)] + [("C", 0), ("H", 1)] * 5 + [("O", 0), ("H", 0)]
+    acid = [("C", 0), ("H", 1)] + [("C", 0), ("H", 1)] * 6 + [("C", 0), ("O", 0), ("O", 0), ("H", 0)]
+    mixed = [("Na", 1), ("K", 1), ("Mg", 0), ("Ca", 1), ("Fe", 0), ("Al", 1), ("Si", 0), ("O", 1), ("Na", 0), ("Cl", 1), ("Co", 0), ("C", 0), ("O", 1), ("Fe", 1), ("H", 0), ("Hf", 1)]
+    plain = [(s_, 0) for s_ in "C H H H C H H C H H C H H C H H C H H O H".split()]
+    out = [f(flat(hexanol)), f(flat(acid), charge=("-", None)), f(flat(mixed), suffix="(s)"), f(flat(plain)),
+           f(flat(hexanol)[:8] + [("grp", ("(", ")"), flat(acid)[:6], ("cnt", 40))] + flat(hexanol)[8:], charge=("+", ("chg", 41)))]
+    return out
+
+
+def task_skeletons(seed, n, depth, width, trunc=False, explicit=False):
     from chempy.util import parsing
 
     rnd = random.Random(seed)
     gen = Gen(rnd, depth, width)
+    pool = iter(long_flat_skeletons()) if explicit else None
+    if explicit:
+        n = len(long_flat_skeletons())
     res = dict(engine="Z", functions=[env.describe(parsing.formula_to_composition), env.describe(parsing._parse_stoich),
                                       env.describe(parsing._get_formula_parser), env.describe(parsing._formula_to_parts),
                                       env.describe(parsing._get_charge), env.describe(parsing._get_leading_integer)],
@@ -479,9 +507,9 @@ def task_skeletons(seed, n, depth, width, trunc=False):
     from vlib.zrun import explore_and_prove
 
     while len(seen) < n:
-        f = gen.formula()
+        f = next(pool) if pool is not None else gen.formula()
         fstr = render(f)
-        if fstr in seen or len(fstr) > 60:
+        if pool is None and (fstr in seen or len(fstr) > 60):
             continue
         seen.add(fstr)
         vars_, assum0 = numeral_vars(f)
@@ -511,7 +539,18 @@ def task_skeletons(seed, n, depth, width, trunc=False):
         for p, m, g in o.failed[:1]:
             if len(res["violations"]) < 4:
                 cstr, cexp = concretise(f, m, vars_)
-                res["violations"].append(dict(key="skeleton:%s" % ("exc" if p.kind == "exc" else "composition"), soft=wrapper_exc(p.value),
+                # the numerals reach the code through the injected int()/float(); a variant that reads them another way (a lookup table,
+                # a regex) leaves the abstraction, and the solver's values then say nothing: when the real code is consistent at the
+                # model's own string, other members of the SAME skeleton family (long numerals) are tried concretely and the
+                # model-based candidate becomes soft (replay decides, INCONCLUSIVE when nothing reproduces)
+                bypass = _consistent(cstr, cexp)
+                if bypass:
+                    for wstr, wexp in family_witnesses(f):
+                        if not _consistent(wstr, wexp):
+                            res["violations"].append(dict(key="skeleton:family", desc="%r -> composition differs from the derivation tree" % wstr,
+                                                          replay_src=REPLAY_L2 % dict(f=wstr, exp=repr(wexp))))
+                            break
+                res["violations"].append(dict(key="skeleton:%s" % ("exc" if p.kind == "exc" else "composition"), soft=bool(wrapper_exc(p.value) or bypass),
                                               desc="%r -> %s" % (cstr, "raised %r" % (p.value,) if p.kind == "exc" else "composition differs from the derivation tree"),
                                               replay_src=REPLAY_L2 % dict(f=cstr, exp=repr(cexp))))
     res["solver_s"] = time.time() - t0
@@ -519,6 +558,31 @@ def task_skeletons(seed, n, depth, width, trunc=False):
     res["sample"] = {"skeletons": samples, "numerals": "each digit string is a placeholder bound to a z3 variable"}
     res["status"] = "violation" if res["violations"] else ("inconclusive" if res["inconclusive"] else "discharged")
     return res
+
+
+def _consistent(fstr, exp):
+    """the real code (no injection) on a concrete string agrees with the expected composition"""
+    from chempy.util.parsing import formula_to_composition
+    try:
+        got = formula_to_composition(fstr)
+    except Exception:
+        return False
+    return set(got) == set(exp) and all(abs(got[k] - exp[k]) < 1e-9 * max(1, abs(exp[k])) for k in exp)
+
+
+def family_witnesses(f):
+    """members of a skeleton's family with LONG numerals (4-7 digit counts, decimals with long integer parts); multipliers and charges small"""
+    for base, step in ((1000, 7), (123456, 11), (9999999, 1)):
+        def num(p, base=base, step=step):
+            kind, k = p
+            if kind in ("hyd", "chg"):
+                return 2 + k % 3
+            return base + step * k + (0.5 if k % 5 == 0 else 0)
+
+        def tok(p):
+            v = num(p)
+            return str(v) if isinstance(v, int) else ("%.1f" % v)
+        yield render(f, tok), oracle(f, num)
 
 
 def _concrete_oracle(f):
@@ -611,6 +675,8 @@ def tasks(tier, seed):
         ts.append(dict(id="C01.L2.skeletons.%02d" % i, fn="task_skeletons", kwargs=dict(seed=seed * 1000 + i, n=n // nt, depth=depth, width=width),
                        timeout=3000))
     for i in range(2 if tier == "quick" else 8):
+        if i == 0:
+            ts.append(dict(id="C01.L2.long", fn="task_skeletons", kwargs=dict(seed=seed, n=5, depth=1, width=1, explicit=True), timeout=1200))
         ts.append(dict(id="C01.L2.trunc.%02d" % i, fn="task_skeletons", kwargs=dict(seed=seed * 1000 + 500 + i, n=25 if tier == "quick" else 60, depth=2, width=2,
                                                                               trunc=True), timeout=3000))
     ts.append(dict(id="C01.reject", fn="task_reject", kwargs=dict(seed=seed, n=200), timeout=600))
